@@ -282,6 +282,7 @@ def main_check(spec, tier, replay=None):
         for (c, r, why) in report.failures:
             key = None
             try:
+                r["why"] = why
                 key = spec.known_key(c, r)
             except Exception:
                 key = None
